@@ -14,8 +14,8 @@ from inscripta.biocantor.sequence.alphabet import Alphabet
 NT_ALPHABETS = list(S.ALPHABETS)
 
 
-def root_parent(genome, alphabet):
-    return Parent(id="root", sequence=Sequence(genome, Alphabet[alphabet], id="root"))
+def root_parent(genome, alphabet, seq_type=None):
+    return Parent(id="root", sequence=Sequence(genome, Alphabet[alphabet], id="root", type=seq_type))
 
 
 def labels(ctx, spec):
@@ -40,7 +40,22 @@ def labels(ctx, spec):
 def check_extract(spec, ctx):
     labels(ctx, spec)
     g, alpha, L = spec["genome"], spec["alphabet"], spec["loc"]
-    root = root_parent(g, alpha)
+    rtype = spec.get("root_type")
+    if spec.get("decoy") and L["strand"] != "." and len(g) > 1:
+        # another molecule with the same name, type, alphabet and length but other bases (another strain's "chr1", an edited copy)
+        # was read at the very same coordinates just before: nothing of it may show through
+        g2 = g[1:] + g[:1]
+        if g2 == g:
+            g2 = rm.revcomp(g)[::-1] if set(g.upper()) <= set("ACGTUN-") else g
+        if g2 != g:
+            try:
+                mkloc(L, root_parent(g2, alpha, rtype)).extract_sequence()
+                ctx.label("decoy_molecule_read_first")
+            except Exception:
+                pass
+    if rtype:
+        ctx.label("typed_root:" + rtype)
+    root = root_parent(g, alpha, rtype)
     loc = mkloc(L, root)
     pos = rm.positions(L["blocks"], L["strand"])
     if L["strand"] == ".":
@@ -223,7 +238,7 @@ def base_spec(draw, tier, strands):
     hi = max(b[1] for b in L["blocks"])
     n = hi + draw(st.integers(0, 4))
     g = draw(S.genome(n, alpha, mixed_case=draw(st.booleans())))
-    return {"alphabet": alpha, "genome": g, "loc": L}
+    return {"alphabet": alpha, "genome": g, "loc": L, "root_type": draw(st.sampled_from([None, "chromosome", "chromosome", "contig"])), "decoy": draw(st.booleans())}
 
 
 @st.composite
